@@ -1,6 +1,6 @@
 (* C13 - An aborted session still leaves a well-formed log of the completed boards.
    Only statements, each closed by [exact]; proofs are in the files imported below. *)
-From BE Require Import Model.Session Model.SessionTie Spec.SessionSpec Proofs.Kahn Proofs.Session Proofs.SessionExamples Model.Conform Proofs.SessionConform Proofs.SessionPassOut Proofs.Wire Model.Json Gen.JsonFraming Proofs.C13Cor Proofs.SessionAbort Proofs.SessionAdmission Proofs.SessionArrivals Proofs.SessionAbortArrivals.
+From BE Require Import Model.Session Model.SessionTie Spec.SessionSpec Proofs.Kahn Proofs.Session Proofs.SessionExamples Model.Conform Proofs.SessionConform Proofs.SessionPassOut Proofs.Wire Model.Json Model.JsonFramingHand Proofs.C13Cor Proofs.JsonPins Proofs.SessionAbort Proofs.SessionAdmission Proofs.SessionArrivals Proofs.SessionAbortArrivals.
 From BE Require Import Gen.Skeleton Proofs.SkeletonPin.
 From Coq Require Import ZArith.
 Local Open Scope nat_scope.
@@ -65,6 +65,12 @@ Theorem C13_abort_log_complete :
   srun l (init_state x) = Some s -> main_ended s -> complete_log (log_events (nconn x) s).
 Proof. exact log_complete_when_main_ends. Qed.
 Print Assumptions C13_abort_log_complete.
+
+(* the literals the writer puts around and between the records, re-read from writer.py on this run, are the ones these theorems use *)
+Theorem C13_source_framing_is_the_modelled_one :
+  Gen.JsonFraming.json_framing = Model.JsonFramingHand.json_framing.
+Proof. exact framing_pinned. Qed.
+Print Assumptions C13_source_framing_is_the_modelled_one.
 
 (* and such a file - written with the literals regenerated from writer.py - is one JSON document whose records are exactly those *)
 Theorem C13_aborted_log_parses :
